@@ -441,3 +441,325 @@ class Scores(V3Contract):
         v = view_of(eng, st, args[0])
         conv = lambda x: float(x)  # noqa
         return tuple(lift(lambda x: x.numerator / x.denominator, v.spec(n)) for n in ("base", "temporal", "env"))
+
+
+# ============================================================================================
+# accessors (object fully constructed: WF3)
+
+from pyvc import strings as S  # noqa: E402
+from pyvc.sym import SBool, SInt, SStr, FV, eq_z3, fv_apply  # noqa: E402
+from spec import names as N  # noqa: E402
+from .common import canon_string, strings_equal, field_fv, defined_guard  # noqa: E402
+
+
+def prefix3(v, output_prefix=True):
+    if not output_prefix:
+        return ""
+    return lift(lambda mn: "CVSS:3.%d/" % mn, v.minor)
+
+
+def canon3(v, output_prefix=True):
+    return canon_string(prefix3(v, output_prefix), v.o, v3.ORDER, "X")
+
+
+def sev3(v, n):
+    return lift(v3.severity, v.spec(n))
+
+
+def score_str(v, n):
+    return lift(lambda x: "%.1f" % float(x), v.spec(n))
+
+
+class Accessor3(V3Contract):
+    phase = "done"
+    modifies = frozenset()
+
+
+@register
+class Severities3(Accessor3):
+    qualname = "CVSS3.severities"
+
+    def check_return(self, ctx, value):
+        v = ctx.data["v3"]
+        if not (isinstance(value, tuple) and len(value) == 3):
+            ctx.fail("post:shape", "severities() does not return a 3-tuple")
+            return
+        for x, n in zip(value, ("base", "temporal", "env")):
+            ctx.prove("post:%s" % n, eq_z3(x, sev3(v, n)),
+                      "the %s rating is the one the official scale assigns to the %s score" % (n, n))
+
+    def effect(self, eng, st, args, kwargs):
+        v = view_of(eng, st, args[0])
+        return tuple(sev3(v, n) for n in ("base", "temporal", "env"))
+
+
+@register
+class CleanVector3(Accessor3):
+    qualname = "CVSS3.clean_vector"
+    cases = ({"output_prefix": True}, {"output_prefix": False}, {"output_prefix": "default"})
+
+    def setup(self, ctx):
+        args, kw = Accessor3.setup(self, ctx)
+        op = ctx.case["output_prefix"]
+        if op == "default":
+            return args, kw
+        return args, {"output_prefix": op}
+
+    def check_return(self, ctx, value):
+        v = ctx.data["v3"]
+        op = ctx.case["output_prefix"]
+        spec = canon3(v, True if op == "default" else op)
+        if not isinstance(value, (str, SStr, FV)):
+            ctx.fail("post:type", "clean_vector() does not return a string")
+            return
+        ctx.prove("post:canonical", strings_equal(value, spec),
+                  "prefix + every defined metric once, in specification order, joined by '/'")
+
+    def effect(self, eng, st, args, kwargs):
+        v = view_of(eng, st, args[0])
+        op = args[1] if len(args) > 1 else kwargs.get("output_prefix", True)
+        if not isinstance(op, bool):
+            return NotImplemented
+        return canon3(v, op)
+
+
+@register
+class RhVector3(Accessor3):
+    qualname = "CVSS3.rh_vector"
+
+    def check_return(self, ctx, value):
+        v = ctx.data["v3"]
+        spec = S.concat(S.concat(score_str(v, "base"), "/"), canon3(v))
+        ctx.prove("post:rh", strings_equal(value, spec),
+                  "base score with one decimal + '/' + cleaned vector")
+
+    def effect(self, eng, st, args, kwargs):
+        v = view_of(eng, st, args[0])
+        return S.concat(S.concat(score_str(v, "base"), "/"), canon3(v))
+
+
+def subvector3(v, metrics):
+    return S.join("/", [field_fv(m, v.e[m]) for m in metrics])
+
+
+@register
+class TemporalVector3(Accessor3):
+    qualname = "CVSS3.temporal_vector"
+
+    def check_return(self, ctx, value):
+        ctx.prove("post:temporal_vector", strings_equal(value, subvector3(ctx.data["v3"], v3.TEMPORAL)),
+                  "E, RL, RC in order with the given value or X")
+
+    def effect(self, eng, st, args, kwargs):
+        return subvector3(view_of(eng, st, args[0]), v3.TEMPORAL)
+
+
+@register
+class EnvironmentalVector3(Accessor3):
+    qualname = "CVSS3.environmental_vector"
+
+    def check_return(self, ctx, value):
+        ctx.prove("post:environmental_vector",
+                  strings_equal(value, subvector3(ctx.data["v3"], v3.ENVIRONMENTAL)),
+                  "CR..MA in order; requirement: given value or X; modified: given value or the base value")
+
+    def effect(self, eng, st, args, kwargs):
+        return subvector3(view_of(eng, st, args[0]), v3.ENVIRONMENTAL)
+
+
+@register
+class GetValueDescription3(Accessor3):
+    qualname = "CVSS3.get_value_description"
+    cases = tuple({"abbreviation": m} for m in v3.ORDER)
+
+    def setup(self, ctx):
+        args, kw = Accessor3.setup(self, ctx)
+        return args + [ctx.case["abbreviation"]], kw
+
+    def check_return(self, ctx, value):
+        v = ctx.data["v3"]
+        m = ctx.case["abbreviation"]
+        want = lift(lambda x: N.V3_VALUES[m][x], v.e[m])
+        got = value if isinstance(value, str) else fv_apply(json_name3, value) if isinstance(value, FV) else None
+        if got is None:
+            ctx.fail("post:type", "get_value_description does not return a finite string")
+            return
+        ctx.prove("post:names-effective-value", eq_z3(got, want),
+                  "the description (upper-snake-cased) names the effective value of %s" % m)
+
+    def effect(self, eng, st, args, kwargs):
+        return NotImplemented  # the postcondition does not fix the spelling: callers inline it
+
+
+def json_name3(text):
+    """the schema's spelling of a value description (what as_json's `us` must produce)"""
+    if text == "Adjacent":
+        return "ADJACENT_NETWORK"
+    return text.upper().replace("-", "_").replace(" ", "_")
+
+
+@register
+class Hash3(Accessor3):
+    qualname = "CVSS3.__hash__"
+
+    def check_return(self, ctx, value):
+        v = ctx.data["v3"]
+        want = S.pyhash(canon3(v))
+        ok = isinstance(value, SInt)
+        ctx.prove("post:hash-of-canonical", (value.z == want.z) if ok else False,
+                  "hash is a function of the canonical vector only")
+        evs = [e for e in ctx.st.events if e[0] == "hash"]
+        ctx.prove("post:single-hash-source", len(evs) == 1, "exactly one string is hashed")
+
+
+@register
+class Eq3(Accessor3):
+    qualname = "CVSS3.__eq__"
+    cases = ({"other": "CVSS3"}, {"other": "str"}, {"other": "None"}, {"other": "CVSS2"})
+
+    def setup(self, ctx):
+        args, kw = Accessor3.setup(self, ctx)
+        kind = ctx.case["other"]
+        if kind == "CVSS3":
+            first = ctx.data["v3"]
+            frozen = ctx.data["frozen_maps"]
+            v2_ = V3(ctx, "p")
+            other = v2_.obj("done")
+            other.v3view = v2_
+            ctx.data["self"] = args[0]
+            ctx.data["v3"] = first
+            ctx.data["other_view"] = v2_
+            ctx.data["foreign"] = [other]
+            ctx.data["frozen_maps"] = frozen + [("other.metrics", other.fields["metrics"]),
+                                                ("other.original_metrics", other.fields["original_metrics"])]
+        elif kind == "str":
+            other = fresh_str("other")
+        elif kind == "CVSS2":
+            from pyvc.sym import SObj as _SObj
+
+            other = _SObj(ctx.engine.module("cvss2").globals["CVSS2"])
+            ctx.data["foreign"] = [other]
+        else:
+            other = None
+        return args + [other], kw
+
+    def check_return(self, ctx, value):
+        v = ctx.data["v3"]
+        kind = ctx.case["other"]
+        if kind != "CVSS3":
+            ctx.prove("post:other-type", value is False, "never equal to a value of another type")
+            return
+        w = ctx.data["other_view"]
+        conj = [eq_z3(v.minor, w.minor)]
+        for k in v3.ORDER:
+            ga, gb = defined_guard(v.o, k, "X"), defined_guard(w.o, k, "X")
+            conj.append(ga == gb)
+            conj.append(z3.Implies(ga, eq_z3(v.o.info[k][2], w.o.info[k][2])))
+        want = z3.And(*conj)
+        got = value.z if isinstance(value, SBool) else z3.BoolVal(value) if isinstance(value, bool) else None
+        if got is None:
+            ctx.fail("post:type", "__eq__ does not return a bool")
+            return
+        ctx.prove("post:eq-iff-same-version-and-defined-metrics", got == want,
+                  "a == b exactly when minor versions agree and the same metrics are defined with the same values")
+
+
+from .common import json_doc_obligations  # noqa: E402
+from spec import jsonschema as JS  # noqa: E402
+
+
+def json_spec3(v, o, minimal):
+    """[(key, presence, value)] of the JSON document of a CVSS3 object"""
+    T = z3.BoolVal(True)
+    items = [("version", T, lift(lambda mn: "3.%d" % mn, v.minor)), ("vectorString", T, o.fields["vector"])]
+    for m in v3.BASE:
+        items.append((N.V3_KEYS[m], T, lift(lambda x, m=m: N.V3_VALUES[m][x], v.e[m])))
+    items.append(("baseScore", T, v.spec("base")))
+    items.append(("baseSeverity", T, lift(lambda s: N.SEVERITY_JSON[v3.severity(s)], v.spec("base"))))
+    for grp, metrics, sc in (("temporal", v3.TEMPORAL, "temporal"), ("environmental", v3.ENVIRONMENTAL, "env")):
+        if minimal:
+            low = z3.Or(*[defined_guard(v.o, m, "X") for m in metrics])
+            pres = ("atleast", low, grp)
+        else:
+            pres = T
+        for m in metrics:
+            items.append((N.V3_KEYS[m], pres, lift(lambda x, m=m: N.V3_VALUES[m][x], v.e[m])))
+        name = "temporal" if grp == "temporal" else "environmental"
+        items.append((name + "Score", pres, v.spec(sc)))
+        items.append((name + "Severity", pres, lift(lambda s: N.SEVERITY_JSON[v3.severity(s)], v.spec(sc))))
+    return items
+
+
+def schema_obligations(ctx, result, version, skip=("vectorString",)):
+    """C10: every fragment of the official schema holds for every leaf combination of the document"""
+    from pyvc.interp import UNBOUND
+
+    root = JS.load(version)
+    for k in root.get("required", []):
+        v = result.get(k, UNBOUND) if isinstance(result, dict) else UNBOUND
+        unconditional = v is not UNBOUND and not (isinstance(v, FV) and any(x is UNBOUND for x in v.values))
+        ctx.prove("schema:required[%s]" % k, unconditional, "required field %s is always present" % k)
+    for name, props, frag in JS.fragments(root):
+        if any(p in skip for p in props):
+            continue
+        vals = [result.get(p, UNBOUND) for p in props]
+        if all(x is UNBOUND for x in vals):
+            continue
+        if any(isinstance(x, SStr) for x in vals):
+            ctx.fail("schema:%s" % name, "abstract value under schema fragment %s" % name, status="unknown")
+            continue
+
+        def ok(*xs):
+            doc = {p: x for p, x in zip(props, xs) if x is not UNBOUND}
+            return JS.valid(root, frag, doc)
+
+        r = fv_apply(ok, *vals)
+        goal = r.z if isinstance(r, SBool) else z3.BoolVal(bool(r))
+        ctx.prove("schema:%s" % name, goal, "schema fragment %s over fields %s" % (name, ",".join(props)))
+
+
+@register
+class AsJson3(Accessor3):
+    qualname = "CVSS3.as_json"
+    cases = tuple({"sort": s, "minimal": m} for s in (False, True) for m in (False, True)) + ({"sort": "default", "minimal": "default"},)
+
+    def setup(self, ctx):
+        args, kw = Accessor3.setup(self, ctx)
+        if ctx.case["sort"] == "default":
+            return args, kw
+        return args, {"sort": ctx.case["sort"], "minimal": ctx.case["minimal"]}
+
+    def check_return(self, ctx, value):
+        v, o = ctx.data["v3"], ctx.data["self"]
+        sort = False if ctx.case["sort"] == "default" else ctx.case["sort"]
+        minimal = False if ctx.case["minimal"] == "default" else ctx.case["minimal"]
+        json_doc_obligations(ctx, value, json_spec3(v, o, minimal), sort, None)
+        if isinstance(value, dict):
+            # the document validates against both minor versions' schemas on its own version
+            for ver, mn in (("3.0", 0), ("3.1", 1)):
+                if ctx.st.feasible(eq_z3(v.minor, mn)):
+                    saved = list(ctx.st.pc), list(ctx.st.fd_cons)
+                    # obligations for this minor version are proved under the hypothesis minor == mn
+                    g = eq_z3(v.minor, mn)
+                    sub = _Hyp(ctx, g, "[%s]" % ver)
+                    schema_obligations(sub, value, ver)
+            fresh = all(not ctx.engine.is_global_obj(x) for x in [value])
+            ctx.prove("post:fresh-dict", fresh and value is not o.fields.get("metrics") and value is not o.fields.get("original_metrics"),
+                      "the returned dict is freshly allocated")
+
+
+class _Hyp(object):
+    """obligations under an extra hypothesis"""
+
+    def __init__(self, ctx, hyp, tag):
+        self.ctx, self.hyp, self.tag = ctx, hyp, tag
+        self.st = ctx.st
+        self.engine = ctx.engine
+
+    def prove(self, name, goal, detail=None):
+        if isinstance(goal, bool):
+            goal = z3.BoolVal(goal)
+        return self.ctx.prove(name + self.tag, z3.Implies(self.hyp, goal), detail)
+
+    def fail(self, name, detail, status="refuted"):
+        return self.ctx.fail(name + self.tag, detail, status)
